@@ -282,12 +282,12 @@ void end()
 	while (!g_events.empty()) g_events.pop();
 }
 
-NOTSAN static void *trampoline(void *p)
+static thread_local int t_alloc_depth = 0;
+static pthread_key_t g_exit_key; static bool g_exit_key_ok = false;
+
+// last step of a task: mark it DONE, wake joiners, pass the baton on
+NOTSAN static void finish_task(Task *me)
 {
-	Task *me = static_cast<Task *>(p);
-	t_self = me;
-	hs_wait(&me->sem);
-	void *r = me->fn(me->arg);
 	me->st = DONE; progress();
 	for (auto *t : g_tasks) if (t->st == JOIN && t->target == me) t->st = RUN;
 	Task *n = pick();
@@ -295,6 +295,26 @@ NOTSAN static void *trampoline(void *p)
 	unsigned char id = (unsigned char)n->id; fnv(g_dhash, &id, 1);
 	t_self = nullptr;
 	hs_post(&n->sem);
+}
+NOTSAN static void exit_key_destructor(void *p) { if (p && g_active) finish_task(static_cast<Task *>(p)); }
+void init_thread_exit_key() { if (!g_exit_key_ok && pthread_key_create(&g_exit_key, exit_key_destructor) == 0) g_exit_key_ok = true; }
+
+NOTSAN static void *trampoline(void *p)
+{
+	Task *me = static_cast<Task *>(p);
+	t_self = me;
+	hs_wait(&me->sem);
+	void *r = me->fn(me->arg);
+	if (g_exit_key_ok)
+	{
+		// thread-specific-data destructors of the code under test (FastFlow's per-thread allocator) run after this
+		// function returns; the task keeps the baton while they do (hook points inside them are ignored) and hands it on
+		// from the kernel's own key destructor, which glibc runs after theirs
+		++t_alloc_depth;
+		pthread_setspecific(g_exit_key, me);
+		return r;
+	}
+	finish_task(me);
 	return r;
 }
 
@@ -393,7 +413,6 @@ int64_t __wrap__ZNSt6chrono3_V212system_clock3nowEv()
 //  4,8,15,20 = retry/spin branches (must switch, or a serialised spinner would never let the awaited thread run)
 //  60        = waiter in the FastFlow raw spin lock (must switch)
 //  7,19      = publish steps (count as progress for pollers)
-static thread_local int t_alloc_depth = 0;
 void fix8_verif_point(int site, unsigned long val)
 {
 	// 70/71 bracket the FastFlow allocator: it is a process-wide singleton whose internal queues carry history from
